@@ -197,6 +197,10 @@ class ApproximationScheme(object):
                 # data is the same for all colored approxs so we only need the first
                 data = self._get_approx_data(system, wrt, meta)
                 break
+        else:
+            # none of the colored columns is approximated by this scheme (the coloring was
+            # declared with the other method), so this scheme has no colored approximations.
+            return
 
         outputs = system._outputs
         inputs = system._inputs
